@@ -29,7 +29,8 @@ META = {
     ],
 }
 
-STMTS = ["begin", "commit", "rollback", "insert", "select", "failing", "conn.commit", "conn.rollback", "description", "create_comment", "update", "executemany"]
+STMTS = ["begin", "commit", "rollback", "insert", "select", "failing", "conn.commit", "conn.rollback", "description", "create_comment", "update", "executemany", "failing_executemany", "failing_execute_string"]
+FAILING = ("failing", "failing_executemany", "failing_execute_string")
 TX_WORDS = ("BEGIN", "COMMIT", "ROLLBACK", "START")
 
 
@@ -88,6 +89,10 @@ def _step(a_tx: bool, b_tx: bool, who: int, which_cur: int, si: int) -> bool:
             cur.fetchall()
         elif stmt == "failing":
             cur.execute("select a from nosuch")
+        elif stmt == "failing_executemany":
+            cur.executemany("insert into nosuch values (%s)", [(1,), (2,)])
+        elif stmt == "failing_execute_string":
+            list(conn.execute_string("insert into t2 values (7); select a from nosuch; insert into t2 values (8)"))
         elif stmt == "conn.commit":
             conn.commit()
         elif stmt == "conn.rollback":
@@ -99,7 +104,7 @@ def _step(a_tx: bool, b_tx: bool, who: int, which_cur: int, si: int) -> bool:
             cur.execute("create table tc (a int, b varchar(5)) comment = 'x'")
     except snowflake.connector.errors.ProgrammingError as e:
         err = e
-    if (err is not None) != (stmt == "failing"):
+    if (err is not None) != (stmt in FAILING):
         return False
     # ---- routing: only the acting session's engine connection received calls (new throw-away connections, e.g. for
     # description, may appear but must not carry transaction statements or writes of their own transaction)
@@ -120,9 +125,14 @@ def _step(a_tx: bool, b_tx: bool, who: int, which_cur: int, si: int) -> bool:
     for extra in eng.stubs[nstubs:]:
         if _tx_calls(extra.calls) or extra.in_tx:
             return False
-    # ---- no hidden transaction control
+    # ---- no hidden transaction control that could end or start the USER's transaction: inside an open transaction only the
+    # statement's own COMMIT/ROLLBACK may reach the engine; outside one, any internal BEGIN must be closed again (checked through
+    # the flag below) - an internal BEGIN..COMMIT pair around a batch is not observable and not flagged
     want_tx = {"begin": ["BEGIN"], "commit": ["COMMIT"], "rollback": ["ROLLBACK"], "conn.commit": ["COMMIT"], "conn.rollback": ["ROLLBACK"]}.get(stmt, [])
-    if _tx_calls(new_calls) != want_tx:
+    seen_tx = _tx_calls(new_calls)
+    if want_tx and seen_tx != want_tx:
+        return False
+    if not want_tx and in_tx0 and any(w in ("COMMIT", "ROLLBACK") for w in seen_tx):
         return False
     # ---- transaction flag afterwards
     if stmt == "begin":
@@ -140,8 +150,8 @@ def _step(a_tx: bool, b_tx: bool, who: int, which_cur: int, si: int) -> bool:
     for w in eng.writes[w0:]:
         if w[0] != s.id and w[0] < nstubs:
             return False
-        if w[0] == s.id and w[3] != in_tx0:
-            return False
+        if w[0] == s.id and in_tx0 and not w[3]:
+            return False  # a write of a session inside a transaction escaped that transaction
     return True
 
 
@@ -149,11 +159,11 @@ def _step(a_tx: bool, b_tx: bool, who: int, which_cur: int, si: int) -> bool:
     "C13.statement_routing_one_step",
     encodes=["fakesnow.instance.FakeSnow.connect", "fakesnow.conn.FakeSnowflakeConnection.cursor/commit/rollback", "fakesnow.cursor.FakeSnowflakeCursor.execute/_execute/executemany/description"],
     bounds="two sessions x two cursors each; pre-state: each session inside or outside a transaction (opened through different cursors); step: "
-    "session, cursor and one of 12 statements (BEGIN, COMMIT, ROLLBACK, INSERT, UPDATE, executemany, SELECT, a failing statement, conn.commit(), "
+    "session, cursor and one of 14 statements (BEGIN, COMMIT, ROLLBACK, INSERT, UPDATE, executemany, SELECT, a failing execute / executemany / execute_string, conn.commit(), "
     "conn.rollback(), reading description, CREATE TABLE with comment and VARCHAR length)",
     timeout=(300, 600),
     stubs=["K3 vf.duckstub.Engine (per-connection transaction flag, call log per engine connection)"],
-    shards=(12, 12),
+    shards=(14, 14),
 )
 def routing(a_tx: bool, b_tx: bool, who: int, which_cur: int, si: int) -> bool:
     """
@@ -202,6 +212,16 @@ def _real_routing(a: dict):
                 cur.execute("select a from nosuch")
             except snowflake.connector.errors.ProgrammingError:
                 pass
+        elif stmt == "failing_executemany":
+            try:
+                cur.executemany("insert into nosuch values (%s)", [(1,), (2,)])
+            except snowflake.connector.errors.ProgrammingError:
+                pass
+        elif stmt == "failing_execute_string":
+            try:
+                list(conn.execute_string("insert into t2 values (7); select a from nosuch; insert into t2 values (8)"))
+            except snowflake.connector.errors.ProgrammingError:
+                pass
         elif stmt == "conn.commit":
             conn.commit()
         elif stmt == "conn.rollback":
@@ -226,6 +246,19 @@ def _real_routing(a: dict):
             problems.append("committed row not visible to the other session")
     except Exception as e:  # noqa: BLE001
         problems.append(f"follow-up select raised {type(e).__name__}: {e}")
+    # a session that was inside a transaction and did not end it itself must still be inside it: a row written now
+    # and rolled back must disappear
+    for idx, was_tx in enumerate((a["a_tx"], a["b_tx"])):
+        ended = who == idx and stmt in ("commit", "rollback", "conn.commit", "conn.rollback")
+        if was_tx and not ended:
+            try:
+                curs[idx][0].execute("insert into t2 values (777)")
+                curs[idx][1].execute("rollback")
+                left = [r[0] for r in curs[1 - idx][0].execute("select a from t2").fetchall()]
+                if 777 in left:
+                    problems.append(f"session {'AB'[idx]}: its transaction was ended behind its back (a row written after {stmt} survived ROLLBACK)")
+            except Exception as e:  # noqa: BLE001
+                problems.append(f"transaction probe raised {type(e).__name__}: {e}")
     if not problems and stmt in ("commit", "rollback", "conn.commit", "conn.rollback") and not [a["a_tx"], a["b_tx"]][who]:
         return None, "COMMIT/ROLLBACK without an open transaction: which of the two reached DuckDB is not observable on the real stack"
     return bool(problems), "; ".join(problems) or "real stack: routing/isolation as expected"
